@@ -186,6 +186,8 @@ impl ClientLoop {
 
     pub(crate) async fn run(&mut self, io: &mut PhysLayer) -> SessionError {
         self.timeout_counter.reset();
+        // this is a new connection: nothing received on the previous one belongs to it
+        self.reader.reset();
         loop {
             if let Err(err) = self.poll(io).await {
                 tracing::warn!("ending session: {err}");
